@@ -19,6 +19,7 @@ import (
 	"time"
 
 	"github.com/rogpeppe/go-internal/lockedfile"
+	"golang.org/x/sys/unix"
 )
 
 const capWait = 10 * time.Second
@@ -274,6 +275,126 @@ func scenarioExclHold(self, work string, waiter string, extra int) scenarioResul
 	case waiter == "read" && fs[1] != "data:"+hexs(final):
 		res.viol = "read-saw-partial-contents"
 		res.detail = "Read after the creator's Close did not return the final contents: " + fs[1]
+	}
+	return res
+}
+
+// scenarioFifoHold: the same for a non-regular file.  OpenFile(O_RDWR|O_TRUNC) on a FIFO: the
+// Truncate fails and is ignored for non-regular files, the File is returned as write-locked —
+// and must be: another process's OpenFile(O_RDWR) / Edit on the FIFO has to wait for our Close.
+func scenarioFifoHold(self, work string, waiter string) scenarioResult {
+	res := scenarioResult{name: "fifohold-" + waiter}
+	path := filepath.Join(work, "fifohold-"+waiter)
+	os.Remove(path)
+	if err := unix.Mkfifo(path, 0o666); err != nil {
+		res.setup = "mkfifo: " + err.Error()
+		return res
+	}
+	defer os.Remove(path)
+	flags := os.O_RDWR | os.O_TRUNC
+	f, err := lockedfile.OpenFile(path, flags, 0)
+	if err != nil {
+		res.setup = "OpenFile on a FIFO failed: " + err.Error()
+		return res
+	}
+	tHeld := monoNow()
+	kind, arg := waiter, "-"
+	if waiter == "openfile" {
+		arg = strconv.Itoa(os.O_RDWR)
+	}
+	c2, rd2, in2, err := startHelper(self, nil, "lockwait", path, kind, arg)
+	if err != nil {
+		f.Close()
+		res.setup = err.Error()
+		return res
+	}
+	defer func() { in2.Close(); c2.Process.Kill(); c2.Wait() }()
+	lineCh := make(chan string, 1)
+	go func() {
+		s, err := rd2.ReadString('\n')
+		if err != nil {
+			s = "EOF " + s
+		}
+		lineCh <- strings.TrimSpace(s)
+	}()
+	l, gotEarly := "", false
+	select {
+	case l = <-lineCh:
+		gotEarly = true
+	case <-time.After(300 * time.Millisecond):
+	}
+	tClose := monoNow()
+	f.Close()
+	if !gotEarly {
+		select {
+		case l = <-lineCh:
+		case <-time.After(capWait):
+			res.viol = "waiter-never-finished"
+			res.detail = fmt.Sprintf("%s on the FIFO did not finish within %v after the holder closed", waiter, capWait)
+			return res
+		}
+	}
+	fs := strings.Fields(l)
+	if len(fs) != 4 || fs[0] != "DONE" || fs[1] == "err" {
+		res.setup = "helper said " + l
+		return res
+	}
+	t1, _ := strconv.ParseInt(fs[3], 10, 64)
+	if gotEarly || t1 < tClose {
+		res.viol = "acquired-while-nonregular-file-held"
+		res.detail = fmt.Sprintf("%d A: OpenFile(FIFO, O_RDWR|O_TRUNC=%d) returned a write-locked File ; B: %s returned at %d ; %d A: Close begins — B did not wait for A",
+			tHeld, flags, waiter, t1, tClose)
+	}
+	return res
+}
+
+// scenarioMutexPerm: an unprivileged caller and a lock file it may read but not write.
+// Mutex.Lock must either fail or exclude: two callers must never hold the Mutex together.
+func scenarioMutexPerm(self string) scenarioResult {
+	res := scenarioResult{name: "mutexperm"}
+	if os.Geteuid() != 0 {
+		res.setup = "not running as root: cannot switch to an unprivileged uid"
+		return res
+	}
+	dir, err := os.MkdirTemp("/tmp", "verif-lf-perm")
+	if err != nil {
+		res.setup = err.Error()
+		return res
+	}
+	defer os.RemoveAll(dir)
+	os.Chmod(dir, 0o755)
+	path := filepath.Join(dir, "lockfile")
+	os.WriteFile(path, nil, 0o444)
+	os.Chmod(path, 0o444)
+	const uid = "65534"
+	ca, ra, ina, err := startHelper(self, nil, "mutexperm", path, uid)
+	if err != nil {
+		res.setup = err.Error()
+		return res
+	}
+	defer func() { ina.Close(); ca.Wait() }()
+	la, ok := waitLine(ra, capWait)
+	switch {
+	case !ok:
+		res.setup = "first caller did not answer"
+		return res
+	case strings.HasPrefix(la, "NOPRIV"), strings.HasPrefix(la, "EOF"):
+		res.setup = "helper could not drop privileges: " + la
+		return res
+	case strings.HasPrefix(la, "ERR"):
+		return res // refused: fine
+	}
+	// A holds the Mutex.  B must not get it while A holds.
+	cb, rb, inb, err := startHelper(self, nil, "mutexperm", path, uid)
+	if err != nil {
+		res.setup = err.Error()
+		return res
+	}
+	defer func() { inb.Close(); cb.Process.Kill(); cb.Wait() }()
+	lb, got := waitLine(rb, 400*time.Millisecond)
+	if got && strings.HasPrefix(lb, "LOCKED") {
+		res.viol = "two-holders-of-one-mutex"
+		res.detail = fmt.Sprintf("lock file mode 0444, callers uid %s: A: Mutex.Lock %s (still holding) ; B: Mutex.Lock %s — both hold the Mutex", uid, la, lb)
 	}
 	return res
 }
